@@ -553,7 +553,8 @@ def run(rep, model):
         n += 1
         rel, line = _where(model, name)
         try:
-            r = evaluate(model, b)
+            from ..core import with_budget
+            r = with_budget(lambda: evaluate(model, b))
         except (Undecided, Fork) as e:
             rep.undecided('R6', name, str(e), rel)
             continue
